@@ -24,6 +24,7 @@ FLAVOR_SRCS = {
     "qsbr": (["urcu-qsbr.c", "urcu-pointer.c"], ["-DRCU_QSBR"]),
     "bp": (["urcu-bp.c", "urcu-pointer.c"], []),
     None: ([], []),
+    "spec": (["urcu-pointer.c"], []),   # specification flavor: vrt/vflavor_spec.c + generated headers
 }
 HOOK_DEFS = [
     "-DURCU_VERIF",
@@ -83,6 +84,14 @@ def compile_all(bdir, builds):
             "-I%s/include" % REPO, "-I%s/src" % REPO, "-I%s/vrt" % VERIF, "-I%s/harness" % VERIF,
             "-include", "%s/include/config.h" % REPO, "-include", "%s/vrt/vrt_hooks.h" % VERIF] + HOOK_DEFS
     links = {}
+    specinc = os.path.join(bdir, "specinc")
+    if any(b.flavor == "spec" for b in builds):
+        os.makedirs(os.path.join(specinc, "urcu", "map"), exist_ok=True)
+        for src, dst in (("include/urcu/urcu-memb.h", "urcu/urcu-spec.h"),
+                         ("include/urcu/map/urcu-memb.h", "urcu/map/urcu-spec.h")):
+            t = open(os.path.join(REPO, src)).read()
+            t = t.replace("urcu_memb", "urcu_spec").replace("URCU_MEMB", "URCU_SPEC").replace("urcu-memb.h", "urcu-spec.h")
+            open(os.path.join(specinc, dst), "w").write(t)
     for b in builds:
         fsrcs, fdefs = FLAVOR_SRCS[b.flavor]
         srcs = list(COMMON_SRCS) + fsrcs + (CDS_SRCS if b.cds else []) + b.extra_repo
@@ -92,6 +101,11 @@ def compile_all(bdir, builds):
             obj = os.path.join(bdir, "%s__%s.o" % (b.name, s.replace("/", "_").replace(".c", "")))
             objs.append(obj)
             tasks.append((["gcc"] + flags + ["-c", os.path.join(REPO, "src", s), "-o", obj], obj))
+        if b.flavor == "spec":
+            flags = flags + ["-I" + specinc]
+            obj = os.path.join(bdir, "%s__vflavor_spec.o" % b.name)
+            objs.append(obj)
+            tasks.append((["gcc"] + flags + ["-c", os.path.join(VERIF, "vrt", "vflavor_spec.c"), "-o", obj], obj))
         hobj = os.path.join(bdir, "%s__harness.o" % b.name)
         objs.append(hobj)
         fl = "-DFLAVOR_%s" % (b.flavor or "none").upper()
